@@ -241,6 +241,25 @@ impl Everything {
         w.setup_fee_hub(&["ampwhale"], DAY_NS, Decimal::one(), 2, DAY_NS, START_TIME_S * 1_000_000_000, native("uwhale"))?;
         let dist = w.fee_distributor.clone().unwrap();
         let collector = w.fee_collector.clone().unwrap();
+        // an address the configuration names in a role other than the owner's: the take-rate recipient
+        let dao = w.add_account("dao");
+        let hub = w.owner.clone();
+        w.exec(
+            &hub,
+            &collector,
+            &fc::ExecuteMsg::UpdateConfig {
+                owner: None,
+                pool_router: None,
+                fee_distributor: None,
+                pool_factory: None,
+                vault_factory: None,
+                take_rate: None,
+                take_rate_dao_address: Some(dao.to_string()),
+                is_take_rate_active: None,
+            },
+            &[],
+        )
+        .map_err(|e| format!("naming the take-rate recipient: {e}"))?;
         // liquidity everywhere, one epoch
         let alice = w.users[0].clone();
         let a = 1_000_000_000u128;
@@ -725,11 +744,11 @@ impl Check for PrivilegeMatrix {
         "privilege_matrix"
     }
     fn rule(&self) -> &'static str {
-        "hand-written table of every ExecuteMsg variant of 14 contracts (pool factory, pair, trio, router, frontend helper, incentive factory, incentive, vault factory, vault, vault router, fee collector, fee distributor, whale lair, epoch manager), verified at start-up against the variant names derived from the message schemas; every privileged / internal variant x ten caller roles (configured owner, hub owner account, prospective new owner, user, sibling contract, the contract itself, pool factory, vault factory, fee distributor, a registered vault) x {before, after an ownership transfer} is enumerated exhaustively as the regression corpus with the canonical payload and with payloads that name the caller itself / an unregistered asset where a message carries the identity it is checked against (vault-router NextLoan source_vault + asset, CompleteLoan initiator), and random payload details are drawn on top; unauthorised attempts also come with reshaped payloads (any subset of the message's optional fields left out, down to the empty update, and the owner field naming the caller). Oracle: a caller outside the authorised set => rejected and full world snapshot unchanged; the authorised caller with the canonical payload => accepted (except migrations, whose payload is refused for version reasons); after a transfer the previous owner is rejected and the new owner accepted; AssertMinimumReceive is effect-free for every caller. Non-trivial: an unauthorised role was exercised; distinct by (variant, role, transfer, payload)."
+        "hand-written table of every ExecuteMsg variant of 14 contracts (pool factory, pair, trio, router, frontend helper, incentive factory, incentive, vault factory, vault, vault router, fee collector, fee distributor, whale lair, epoch manager), verified at start-up against the variant names derived from the message schemas; every privileged / internal variant x twelve caller roles (configured owner, hub owner account, prospective new owner, user, sibling contract, the contract itself, pool factory, vault factory, fee distributor, a registered vault, the fee collector's configured take-rate recipient, the creator of an incentive flow) x {before, after an ownership transfer} is enumerated exhaustively as the regression corpus with the canonical payload and with payloads that name the caller itself / an unregistered asset where a message carries the identity it is checked against (vault-router NextLoan source_vault + asset, CompleteLoan initiator), and random payload details are drawn on top; unauthorised attempts also come with reshaped payloads (any subset of the message's optional fields left out, down to the empty update, and the owner field naming the caller). Oracle: a caller outside the authorised set => rejected and full world snapshot unchanged; the authorised caller with the canonical payload => accepted (except migrations, whose payload is refused for version reasons); after a transfer the previous owner is rejected and the new owner accepted; AssertMinimumReceive is effect-free for every caller. Non-trivial: an unauthorised role was exercised; distinct by (variant, role, transfer, payload)."
     }
     fn strategy(&self, _tier: Tier) -> BoxedStrategy<Case> {
         let n = privileged_entries().len() as u16;
-        (0..n, 0u8..10, any::<bool>(), any::<u64>())
+        (0..n, 0u8..12, any::<bool>(), any::<u64>())
             .prop_map(|(i, role, after_transfer, payload)| Case {
                 entry: privileged_entries()[i as usize] as u16,
                 role,
@@ -744,7 +763,7 @@ impl Check for PrivilegeMatrix {
     fn corpus(&self) -> Vec<Case> {
         let mut out = vec![];
         for i in privileged_entries() {
-            for role in 0..10u8 {
+            for role in 0..12u8 {
                 for after_transfer in [false, true] {
                     // canonical payload, and the payload that names the caller itself together
                     // with an unregistered asset wherever the message carries such fields
@@ -791,7 +810,10 @@ impl Check for PrivilegeMatrix {
             6 => ev.addr(Target::PoolFactory),
             7 => ev.addr(Target::VaultFactory),
             8 => ev.addr(Target::Distributor),
-            _ => ev.vault.clone(),
+            9 => ev.vault.clone(),
+            // addresses the configuration names in a role other than the owner's
+            10 => Addr::unchecked("dao"),
+            _ => ev.flow_creator.clone(),
         };
         // epoch manager remove_hook needs a hook to remove: add one as the current admin
         let payload = if e.target == Target::EpochManager && e.variant == "remove_hook" {
